@@ -1055,6 +1055,59 @@ def default_placeholder_case(rec, rng):
         shutil.rmtree(root, ignore_errors=True)
 
 
+def two_blacklist_case(rec, rng):
+    """Selections by filters with two black-list entries (two user placeholders): dry run, copy, delete."""
+    from typhon.files import FileSet, FileHandler
+    root = scratch_dir("c11b")
+    try:
+        tmpl = root + "/src/{sat}/{year}{month}{day}_{hour}{minute}{second}-{end_hour}{end_minute}{end_second}_{mode}.pkl"
+        fs = FileSet(path=tmpl, name="src", handler=FileHandler(reader=pkl_read, writer=pkl_write),
+                     worker_type="thread")
+        day = dt.datetime(2018, rng.randrange(1, 13), rng.randrange(1, 28))
+        files = {}
+        for k in range(rng.choice([6, 9, 12])):
+            t0 = day + D(minutes=37 * k)
+            sat, mode = rng.choice(["A", "B"]), rng.choice(["test", "op"])
+            if k < 4:
+                sat, mode = [("A", "test"), ("A", "op"), ("B", "test"), ("B", "op")][k]
+            fs[t0:t0 + D(minutes=10), {"sat": sat, "mode": mode}] = {"id": k}
+            files[fs.get_filename((t0, t0 + D(minutes=10)), fill={"sat": sat, "mode": mode})] = (sat, mode, k)
+        flt = rng.choice([{"!sat": "A", "!mode": "test"}, {"!mode": "test", "!sat": "A"},
+                          {"!sat": ["A"], "!mode": ["test", "zz"]}])
+        selected = {p for p, (sat, mode, k) in files.items() if sat != "A" and mode != "test"}
+        case = {"kind": "two-blacklist", "filters": flt}
+        rec.ev()
+        rec.count("two_blacklist.cases")
+        s0, s1 = day - D(days=1), day + D(days=2)
+        try:
+            fs.delete(dry_run=True, start=s0, end=s1, filters=dict(flt))
+            if listing(root) != set(files):
+                rec.violation("tree-differs", case, {"after": "delete(dry_run=True)"})
+                return
+            tgt = fs.move(root + "/tgt/{mode}/{sat}_{year}{doy}_{hour}{minute}{second}-{end_hour}{end_minute}"
+                                 "{end_second}.pkl", copy=True, start=s0, end=s1, filters=dict(flt))
+            copied = {p for p in listing(root) if "/tgt/" in p}
+            if len(copied) != len(selected) or (listing(root) - copied) != set(files):
+                rec.violation("tree-differs", case, {"after": "copy of a selection by two black-list filters",
+                                                     "copied": len(copied), "selected": len(selected)})
+                return
+            fs.delete(start=s0, end=s1, filters=dict(flt))
+            left = listing(root) - copied
+            if left != set(files) - selected:
+                rec.violation("tree-differs", case,
+                              {"after": "delete of a selection by two black-list filters",
+                               "wrongly_removed": sorted(os.path.relpath(p, root) for p in (set(files) - selected) - left)[:4],
+                               "not_removed": sorted(os.path.relpath(p, root) for p in left - (set(files) - selected))[:4]})
+                return
+            rec.nontriv(["two-blacklist", sorted(flt)], [sorted(flt), len(files)])
+        except Exception as exc:
+            rec.violation("operation-exception", case, {"op": "selection by two black-list filters",
+                                                        "exception": repr(exc),
+                                                        "trace": traceback.format_exc()[-1200:]})
+    finally:
+        shutil.rmtree(root, ignore_errors=True)
+
+
 def run_shard(spec, rec):
     rng = rng_for(spec["seed"], "c11", spec["shard"])
     if spec["kind"] == "formats":
@@ -1063,6 +1116,7 @@ def run_shard(spec, rec):
     try:
         single_file_moves(rec, rng_for(spec["seed"], "c11-single", spec["shard"]))
         default_placeholder_case(rec, rng_for(spec["seed"], "c11-default", spec["shard"]))
+        two_blacklist_case(rec, rng_for(spec["seed"], "c11-two-bl", spec["shard"]))
     except Exception as exc:
         rec.inconc("harness error: %r %s" % (exc, traceback.format_exc()[-1200:]))
     for i in range(spec["n"]):
@@ -1078,6 +1132,9 @@ def run_shard(spec, rec):
 def replay(case, rec):
     if case.get("kind") == "history":
         run_history(rec, case["seed"], rng_for(case["seed"], "c11-history"))
+    elif case.get("kind") == "two-blacklist":
+        for k in range(4):
+            two_blacklist_case(rec, rng_for(k, "replay"))
     elif case.get("kind") == "default-placeholder":
         for k in range(4):
             default_placeholder_case(rec, rng_for(k, "replay"))
